@@ -219,6 +219,54 @@ def h_self_compose(env, N):
     env.goal('results_are_distinct_objects', (i1 is not i2) and not np.shares_memory(i1.gs, i2.gs) and not np.shares_memory(sq.gs, m.gs))
 
 
+def h_inverse_history(env, N, family, how):
+    """inverse, then the map is changed in place (rotated, its table edited, transformed), then inverse again: the second
+    inverse inverts the map as it is now (composes with it to the identity, both ways)"""
+    M = Mods(env)
+    mg, mp, ok = family_map(env, 'map', N, family)
+    env.assume(ok, 'map valid')
+    m = M.st.CliffordMap(S_(env, mg), S_(env, mp))
+    r = env.run(lambda: m.inverse())
+    env.goal('first_inverse_no_exception', b_not(r.raised))
+    if how == 'rotate':
+        gg = env.bits('gen', (2 * N,))
+        pg = 2 * env.signs('gen_sign', (1,))[0] if False else env.signs('gen_sign', (1,))[0]
+        r1 = env.run(lambda: m.rotate_by(M.pa.Pauli(gg.copy(), pg)))
+        ng = np.empty((2 * N, 2 * N), dtype=object)
+        npp = np.empty((2 * N,), dtype=object)
+        for k in range(2 * N):
+            ng[k], npp[k] = ref.ref_rotate(gg, pg, mg[k], mp[k])
+    elif how == 'edit':
+        # swap the images of X_0 and Z_0 in place and flip a sign: still a valid map (up to the sign of the pair)
+        def edit():
+            row = m.gs[0].copy()
+            m.gs[0] = m.gs[1]
+            m.gs[1] = row
+            m.ps[0], m.ps[1] = m.ps[1], (m.ps[0] + 2) % 4
+        r1 = env.run(edit)
+        ng = np.array(mg, dtype=object).copy()
+        ng[0], ng[1] = np.array(mg[1], dtype=object), np.array(mg[0], dtype=object)
+        npp = np.array(mp, dtype=object).copy()
+        npp[0], npp[1] = mp[1], (mp[0] + 2) % 4
+    else:
+        og, op, ok2 = family_map(env, 'other', N, 'frame' if N > 1 else 'valid')
+        env.assume(ok2, 'other map valid')
+        r1 = env.run(lambda: m.transform_by(M.st.CliffordMap(S_(env, og), S_(env, op))))
+        ng, npp = ref_compose(mg, mp, og, op)
+    env.goal('update_no_exception', b_not(r1.raised))
+    env.goal('updated_table', b_and(arr_eq(m.gs, ng), arr_eq(m.ps, npp)))
+    r2 = env.run(lambda: m.inverse())
+    env.goal('second_inverse_no_exception', b_not(r2.raised))
+    if r2.value is None:
+        return
+    inv = r2.value
+    idg, idp = identity_table(N)
+    ag, ap = ref_compose(ng, npp, inv.gs, inv.ps)
+    bg, bp = ref_compose(inv.gs, inv.ps, ng, npp)
+    env.goal('m_then_second_inverse', b_and(arr_eq(ag, idg), arr_eq(ap, idp)))
+    env.goal('second_inverse_then_m', b_and(arr_eq(bg, idg), arr_eq(bp, idp)))
+
+
 def S_(env, a):
     """fresh array of the right kind holding the (possibly derived) entries"""
     if env.symbolic:
@@ -283,6 +331,9 @@ def jobs(tier):
         for fb, fc in (('valid', 'frame'), ('frame', 'valid'), ('frame', 'frame')):
             J.append(dict(harness=('c04', 'h_sequential'), params=dict(N=N, fam_b=fb, fam_c=fc), timeout_s=300, cost=10))
         J.append(dict(harness=('c04', 'h_self_compose'), params=dict(N=N), timeout_s=300, cost=10))
+        for how in ('rotate', 'edit', 'transform'):
+            for family in (('valid',) if N == 1 else ('rotation', 'embed1')):
+                J.append(dict(harness=('c04', 'h_inverse_history'), params=dict(N=N, family=family, how=how), timeout_s=300, cost=15))
     for f in fams2:
         wi = (tier == 'thorough') or f != 'rotation'
         J.append(dict(harness=('c04', 'h_sequential'), params=dict(N=2, fam_b='valid', fam_c=f, with_inverse=wi), timeout_s=300, cost=20))
